@@ -128,3 +128,6 @@ func VerifSetOpenExclusive(d *FileSystemDirectory,
 func VerifFileName(d *FileSystemDirectory, kind string, id uint64) string {
 	return d.fileName(kind, id)
 }
+
+// VerifCodecEpoch is the epoch a loaded Snapshot carries (taken from the file name).
+func VerifCodecEpoch(s *Snapshot) uint64 { return s.epoch }
